@@ -143,25 +143,28 @@ RSaveData ==
   /\ ~Strict /\ IsEvent("SaveData") /\ SaveDataG(~Ev.saved)
   /\ Chk("iter", Ev.iter = it + start) /\ Chk("saved", ~(mode.restart /\ it = 0) => Ev.saved)
   /\ (Ev.saved => (Chk("file", Has("file")) /\ (Has("file") => CoefMatch(Ev.file, coef, "file"))))
+(* NB (TLC): a Chk is a disjunction; TLC evaluates it as a Boolean (short-circuit, prints only when the condition is
+   false) once all primed variables are assigned, and enumerates BOTH disjuncts (spurious print) before that.  Every
+   Chk / Must therefore comes after the conjunct that assigns the primed variables. *)
 RRefine ==
   /\ ~Strict /\ IsEvent("Refine")
-  /\ LET impl == KLof(Ev.kl)
-         n0   == Len(kl)
-     IN /\ Must("kl.prefix", /\ Len(impl) >= n0
+  /\ LET impl   == KLof(Ev.kl)
+         n0     == Len(kl)
+         ordset == IF Has("ord") /\ Len(Ev.ord) > 0 THEN SetOf(Ev.ord)
+                   ELSE {i \in 1..n0 : i <= Len(impl) /\ kl[i].fac > 0 /\ impl[i].fac = 0}
+         newkl  == [i \in 1..Len(impl) |-> IF i <= n0 THEN [kl[i] EXCEPT !.fac = impl[i].fac]
+                                            ELSE [KP(impl[i].c, impl[i].lev, impl[i].fac) EXCEPT !.ev = impl[i].ev]]
+     IN /\ RefineL(AscSeq(ordset \cap (1..n0)), newkl)
+        /\ Must("kl.prefix", /\ Len(impl) >= n0
                              /\ \A i \in 1..n0 : impl[i].c = kl[i].c /\ impl[i].lev = kl[i].lev /\ impl[i].ev = kl[i].ev)
-        /\ LET ordset == IF Has("ord") /\ Len(Ev.ord) > 0 THEN SetOf(Ev.ord)
-                         ELSE {i \in 1..n0 : kl[i].fac > 0 /\ impl[i].fac = 0}
-               newkl  == [i \in 1..Len(impl) |-> IF i <= n0 THEN [kl[i] EXCEPT !.fac = impl[i].fac]
-                                                  ELSE [KP(impl[i].c, impl[i].lev, impl[i].fac) EXCEPT !.ev = impl[i].ev]]
-           IN /\ Must("ord", ordset # {} /\ ordset \subseteq 1..n0)
-              /\ Chk("kl.canon", CanonBag(newkl, mode.sym) = CanonBag(RefineList(kl, AscSeq(ordset), mode.sym), mode.sym))
-              /\ RefineL(AscSeq(ordset), newkl)
+        /\ Must("ord", ordset # {} /\ ordset \subseteq 1..n0)
+        /\ Chk("kl.canon", CanonBag(newkl, mode.sym) = CanonBag(RefineList(kl, AscSeq(ordset), mode.sym), mode.sym))
 
 -----------------------------------------------------------------------------
 (* both levels *)
 TReturn == /\ IsEvent("Return") /\ Return /\ CoefMatch(Ev.coef, coef, "coef")
 (* the object returned by run() (projected by the driver after run() came back) *)
-TReturned == /\ IsEvent("Returned") /\ pc = "idle" /\ ~resNone /\ CoefMatch(Ev.coef, coef, "returned") /\ UNCHANGED vars
+TReturned == /\ IsEvent("Returned") /\ pc = "idle" /\ ~resNone /\ UNCHANGED vars /\ CoefMatch(Ev.coef, coef, "returned")
 (* driver marks: the results saved so far become the reference (uninterrupted run); result files removed *)
 TMarkRef == /\ l <= Len(tr) /\ Ev.e = "MarkRef" /\ l' = l + 1 /\ pc = "idle"
             /\ ref' = saved /\ refRet' = returned /\ refSet' = TRUE /\ saved' = <<>> /\ returned' = {}
